@@ -195,7 +195,7 @@ def walk(net, out):
 
 
 def run(chk, replay=None):
-    broken = chk.lean(['Lcapy/Props/C19.lean', 'Lcapy/Props/C19Forms.lean'],
+    broken = chk.lean(['Lcapy/Props/C19.lean', 'Lcapy/Props/C19Forms.lean', 'Lcapy/Props/NonVacuityC19.lean'],
                       helper_files=['Lcapy/Proofs/PolySynth.lean', 'Lcapy/Proofs/PolyCF.lean', 'Lcapy/Proofs/Poly.lean',
                                     'Lcapy/Proofs/PolyRatfun.lean', 'Lcapy/Proofs/PolyFoster.lean', 'Lcapy/Proofs/PolyBridge.lean',
                                     'Lcapy/Model/PolySynth.lean', 'Lcapy/Model/PolyFoster.lean',
@@ -565,19 +565,29 @@ def run(chk, replay=None):
         if not pts:
             return
         x, sv = pts[0]
-        objs = {'Z': lambda: lc.impedance(e), 'Y': lambda: lc.admittance(e), 'other': lambda: lc.expr(e)}
+        objs = {'Z': lambda: lc.impedance(e), 'Y': lambda: lc.admittance(e), 'other': lambda: lc.expr(e),
+                # the same immittance as a frequency response (s = j omega, s = j 2 pi f)
+                'Z(jw)': lambda: lc.impedance(e)(lc.jw), 'Z(jf)': lambda: lc.impedance(e)(lc.jf)}
+        # the reciprocal of a frequency-response-domain ADMITTANCE is built in the Fourier domain (finding C19-F24: 1/Y(jw));
+        # the family runs once the finding is recorded (known or fixed), so that the unchanged tree stays green until then
+        if any(f.get('id') == 'C19-F24' for f in chk.findings):
+            objs['Y(jw)'] = lambda: lc.admittance(e)(lc.jw)
+            objs['Y(jf)'] = lambda: lc.admittance(e)(lc.jf)
+        else:
+            chk.count('skipped', 'entry Y(jw)/Y(jf) (finding C19-F24 not recorded yet)')
         inp0 = dict(meta)
         inp0.update({'expr': str(e), 'N(low first)': Nt, 'D(low first)': Dt})
         forms = ['default', rng.choice(['cauerI', 'cauerII']), rng.choice(['fosterI', 'fosterII']), rng.choice(PATTERNS), 'RLC', 'nonsense']
-        for kind in ('Z', 'Y', 'other'):
+        for kind in objs:
             obj, err, msg = call(objs[kind])
             if err:
                 chk.count('lcapy-error', 'entry-object:%s:%s' % (kind, err))
                 continue
             entries = [('synthesis.network', lambda f: synthesis.network(obj, f)),
                        ('Synthesis().network', lambda f: synthesis.Synthesis().network(obj, f))]
-            if kind in ('Z', 'Y'):
+            if kind != 'other':
                 entries.append(('obj.network', lambda f: obj.network(f)))
+            base_kind = kind[0] if kind != 'other' else 'other'      # Z / Y / other
             for ename, fn in entries:
                 for form in forms:
                     if ename != 'synthesis.network' and form in ('nonsense',) and kind == 'other':
@@ -593,14 +603,14 @@ def run(chk, replay=None):
                         continue
                     # ---- oracle: a returned network has the GIVEN immittance
                     if outcome == 'network':
-                        if kind == 'Y' or (kind == 'other'):
+                        if base_kind == 'Y' or (base_kind == 'other'):
                             # the expression is the admittance (resp. has no immittance reading): compare net.Y with it
                             got, e2 = L_.timed(lambda: eval_expr(net.Y(lc.s), None, x), tlimit)
                             what = 'admittance'
                         else:
                             got, e2 = L_.timed(lambda: eval_net_Z(net, None, x), tlimit)
                             what = 'impedance'
-                        if kind == 'other':
+                        if base_kind == 'other':
                             # a network for an expression that is no immittance: it must at least be one of the two readings
                             gz, e6 = L_.timed(lambda: eval_net_Z(net, None, x), tlimit)
                             okz = (not e6) and ask('syn.same | %s | %s | %s | %s' % (' '.join(Nt), ' '.join(Dt), fstr(x), gz)) == 'true'
@@ -612,13 +622,13 @@ def run(chk, replay=None):
                         elif not e2:
                             if ask('syn.same | %s | %s | %s | %s' % (' '.join(Nt), ' '.join(Dt), fstr(x), got)) != 'true':
                                 cex({'kind': 'entry', 'entry': ename, 'quantity': kind, 'form': form}, inp,
-                                    {'network': str(net), 'x': fstr(x), 'net.' + what[0].upper(): got, 'requested ' + what: sv},
+                                    {'network': str(net), 'x': fstr(x), 'net.' + ('Y' if what == 'admittance' else 'Z'): got, 'requested ' + what: sv},
                                     '%s(%s-typed expression) returns a network whose %s is not the given expression' % (ename, what, what))
                     # ---- model: synthesis.network on the typed expression; obj.network = network(obj.Z, form)
                     if ename == 'obj.network':
-                        mk, mN, mD, mtD, mtN = 'Z', (Nt if kind == 'Z' else Dt), (Dt if kind == 'Z' else Nt), (tabD if kind == 'Z' else tabN), (tabN if kind == 'Z' else tabD)
+                        mk, mN, mD, mtD, mtN = 'Z', (Nt if base_kind == 'Z' else Dt), (Dt if base_kind == 'Z' else Nt), (tabD if base_kind == 'Z' else tabN), (tabN if base_kind == 'Z' else tabD)
                     else:
-                        mk, mN, mD, mtD, mtN = kind, Nt, Dt, tabD, tabN
+                        mk, mN, mD, mtD, mtN = base_kind, Nt, Dt, tabD, tabN
                     mform = form
                     if (mform in ('fosterI',) and mtD is None) or (mform == 'fosterII' and mtN is None):
                         continue
@@ -712,10 +722,17 @@ def run(chk, replay=None):
             if time.time() - t0 > budget:
                 chk.count('budget', 'entry-stream-stopped-after-%d-cases' % i)
                 break
-            if i % 2 == 0:
+            if i % 3 == 0:
                 e, raw, sv = G.parts(rng)
                 N, D = S.fraction(S.cancel(S.sympify(e)))
                 entry_points(N, D, {'family': 'entry: parts'})
+            elif i % 3 == 2:
+                # the reciprocal of c0 + cp s + cm/s: as an admittance it is a series R-L-C branch (its impedance has a pole at 0)
+                e, raw, sv = G.parts(rng)
+                if e == 0:
+                    continue
+                D, N = S.fraction(S.cancel(S.sympify(e)))
+                entry_points(N, D, {'family': 'entry: reciprocal of parts'})
             else:
                 N, D, meta = G.from_poles(rng)
                 entry_points(N, D, {'family': 'entry: ' + meta['family']})
